@@ -62,10 +62,14 @@ CLAIMED = {
              "over the model of Nibiru's journal, every entry's Revert is the exact inverse of the mutation that appended it, and — by "
              "induction over ANY sequence of write calls on cached accounts — Snapshot … RevertToSnapshot succeeds and restores every "
              "observable of the StateDB (balances, nonces, code hashes, self-destruct flags, current and committed value of every "
-             "slot, refund counter, log count, access list); ApplyEvmMsg's EIP-3529 refund equals "
-             "go-ethereum's for all inputs and never exceeds a fifth of the gas used.",
-        note="NOT proved: the simulation between the model of Nibiru's StateDB (lazy loading, origin caching, dirty counts) and the "
-             "reference semantics for arbitrary call sequences — their observational equality is established by the correspondence "
+             "slot, refund counter, log count, access list); the model of Nibiru's StateDB SIMULATES the reference semantics on ANY "
+             "sequence of write calls on any accounts (cached, lazily loaded, created by the write, absent from the store): afterwards "
+             "every account read, GetState, GetCommittedState, refund counter, log count and access list answer as the reference does "
+             "(SDBSim.lean: relation preserved by every write, induction over the sequence; related start states exist for every "
+             "store); ApplyEvmMsg's EIP-3529 refund equals go-ethereum's for all inputs and never exceeds a fifth of the gas used. A "
+             "cross-implementation oracle reports the first call on which Nibiru's and go-ethereum's real StateDBs answer differently.",
+        note="NOT proved: the simulation across CreateAccount, writes interleaved with nested snapshots, and the reference's Commit "
+             "(what Nibiru's Commit persists is proved under C04) — there the observational equality is established by the correspondence "
              "runs only. Trusted: Lean kernel; the interpreter (same code on both sides); harness; GethSpec's fidelity to go-ethereum "
              "is itself validated by differential execution, not proved. Precompile calls are excluded here (C04/C08).",
         technique="Lean 4 proof (induction over call sequences on the reference semantics; per-entry journal inverse lemmas) + three-way "
@@ -125,7 +129,9 @@ CLAIMED = {
              "decimal arithmetic, itself modelled and differentially validated), allocation and toggle/edit: for every history of "
              "day-epoch ends, toggles and parameter edits from coherent counters, each enabled epoch mints exactly the scheduled amount "
              "for period floor(g/E) (0 after MaxPeriod), disabled epochs mint nothing and do not advance the schedule; the parts are "
-             "non-negative truncated proportions summing to the minted amount and the module account ends empty.",
+             "non-negative truncated proportions summing to the minted amount and the module account ends empty. The generator includes "
+             "polynomials worth about (and below) one unibi per epoch; that exposed a genuine defect (the hook panicked when the provision "
+             "truncated to 0), repaired by fix commit c73a910.",
         note="Trusted: Lean kernel; correspondence harness (real inflation/bank/distribution/sudo keepers); counters < 2^62; positivity of "
              "the provision below MaxPeriod is the property's hypothesis (Positive); incoherent genesis counters are outside the "
              "property's domain (witness theorem documents it). The real-number floor reading of the formula is not proved; the "
@@ -205,7 +211,8 @@ CLAIMED = {
              "Ethereum-only addresses, every accepted transaction and every history of transactions, the EthereumTx handler runs zero "
              "times outside the EVM ante pipeline, at any nesting depth and under any grant configuration (mutual induction over the "
              "tree); the invariant is preserved. T1 facts regenerated each run: both ante chains and the extension-option routing. "
-             "Correspondence through full DeliverTx on the real app with generated message trees.",
+             "Correspondence through full DeliverTx on the real app with generated message trees; the harness also classifies WHERE a tx "
+             "failed (Ethereum guard / message execution / elsewhere) and the model must agree on the guards' verdict.",
         note="Trusted: Lean kernel; harness; extractor. Hypotheses: an address recovered from an Ethereum signature cannot sign a Cosmos "
              "tx (exercised: eth_secp256k1-signed Cosmos txs are refused), is not a contract nor the gov account.",
         technique="Lean 4 proof (mutual structural induction over message trees, grant invariant over histories) + regenerated ante-chain "
@@ -263,14 +270,18 @@ CLAIMED = {
              "unchanged tree: two kernel-checked counterexample theorems (lost pre-frame write; stale balance of an account loaded after a "
              "bank move) are replayed on the real code by the corpus and recorded as known findings. Proved positively: for frames WITHOUT a "
              "precompile call, Snapshot / any sequence of writes on cached accounts / RevertToSnapshot restores every observable "
-             "(C04_frame_revert_restores_partial, induction over the sequence); the "
+             "(C04_frame_revert_restores_partial, induction over the sequence); for transactions WITHOUT a precompile call, after any "
+             "write sequence Commit stores exactly the final view of every dirtied live account (nonce, code hash, whole-unibi balance, "
+             "every slot), removes self-destructed ones and touches nothing else (C04_commit_*_partial, SDBCommit.lean, any number of "
+             "accounts and slots); T1 fact: OnRunStart makes exactly three unconditional StateDB calls (cache context, journal entry, "
+             "flush) whatever the method, and the sdb harness enters precompiles through the real OnRunStart; the "
              "PrecompileCalled journal entry restores the multistore exactly, reverting any other entry leaves it untouched, and the "
              "StateDB balance equals the bank balance after SyncStateDBWithAccount. The reference-semantics oracle (copy-on-snapshot "
              "journaled world + journaled multistore) evaluates the property on every implementation trace and reports any violation "
              "outside the listed findings.",
         note="Trusted: Lean kernel; harness; the reference oracle. Not repaired: the natural repair contradicts the pinned test "
-             "TestJournalReversion (asserts the dirty count after an intermediate flush). The universally quantified atomicity theorem "
-             "for frames without precompile calls is not yet proved (see C03).",
+             "TestJournalReversion (asserts the dirty count after an intermediate flush). Partial: histories with CreateAccount or with "
+             "writes interleaved with nested snapshots are covered by the correspondence only.",
         technique="Lean 4 counterexample proofs (decide on closed terms) + partial theorems + differential correspondence + reference-semantics oracle",
         ref="§7 C04"),
 }
